@@ -20,3 +20,14 @@ Section Cookie.
       else if negb (Nat.eqb (length (hash t) + TS) (length c)) then false
       else beq_bytes (skipn TS c) (hash t).
 End Cookie.
+
+(* ---- for the correspondence run only: the reading of the time stamp as the host does it (8 octets, little-endian,
+   two's complement) and a stand-in for the keyed hash of the same shape (32 octets, every octet of the time takes
+   part).  The real hash depends on a secret drawn at start-up and on the peer address and is not modelled. *)
+Definition tstamp_le (b : bytes) : Z :=
+  let u := Z.of_N (be_value (rev b)) in
+  if u <? 2 ^ 63 then u else u - 2 ^ 64.
+Definition ts_encode_le (t : Z) : bytes := rev (be_encode TS (Z.to_N (t mod 2 ^ 64))).
+Definition standin_hash (t : Z) : bytes :=
+  let u := Z.to_N (t mod 2 ^ 64) in
+  map (fun i => ((u / 256 ^ (N.of_nat (Nat.modulo i 8))) + 3 * N.of_nat i + 1) mod 256)%N (seq 0 32).
